@@ -33,6 +33,8 @@ def flat_prog(
     mark_roots: bool = True,
     dup_rate: float = 0.0,
     index_rate: float = 0.0,
+    none_rate: float = 0.0,
+    bad_index_rate: float = 0.0,
 ) -> Dict[str, Any]:
     """A call-only program: every statement is one call of a constructor function, depending on earlier
     sites through positional args / kwargs / activation flags.  Acyclic by construction."""
@@ -71,6 +73,9 @@ def flat_prog(
                 spec["debug"] = True
             if index_rate and i not in setup_idx and draw(st.floats(0, 1)) < index_rate:
                 spec["kind"], spec["n"] = "tup", 2
+            elif none_rate and i not in setup_idx and draw(st.floats(0, 1)) < none_rate:
+                # a side-effect-only function: its result is None (or another falsy constant)
+                spec["kind"], spec["val"] = "const", draw(st.sampled_from([None, None, 0, ""]))
             fns[fn] = spec
         # dependencies
         if i in setup_idx:
@@ -91,6 +96,8 @@ def flat_prog(
             e = ["v", f"v{j}"]
             if fns[body[j]["fn"]].get("kind") == "tup" and body[j]["active"] is None and draw(st.booleans()):
                 e = ["i", e, draw(st.integers(0, 1))]
+                if bad_index_rate and draw(st.floats(0, 1)) < bad_index_rate:
+                    e = ["i", e[1], 7]  # the user's mistake: the pair has no element 7 (plain Python: IndexError)
             if how == "pos":
                 args.append(e)
             elif how == "kw":
